@@ -83,6 +83,28 @@ theorem C13_size (id : Nat) (data : Bytes) (mtu : Nat) :
     intro d hd
     simp at hd; subst hd; omega
 
+/-- The bound is uniform in the transfer id: a series of transfers from one agent — same MTU, any
+    ids (growing across 24, 256, 65536, 2^32), any lengths — never contains a datagram above the MTU.
+    The sizing depends on nothing but `(mtu, id, len)`; there is no state carried between transfers. -/
+theorem C13_size_any_ids (mtu : Nat) (transfers : List (Nat × Bytes)) :
+    ∀ t ∈ transfers, sendTransfer t.1 t.2 (some mtu) = .failed ∨
+      ∃ segs, sendTransfer t.1 t.2 (some mtu) = .ok segs ∧ ∀ d ∈ segs, d.length ≤ mtu := by
+  intro t _
+  rcases C13_size t.1 t.2 mtu with ⟨h, _, _⟩ | h
+  · exact Or.inl h
+  · exact Or.inr h
+
+/-- Why the room for data must be computed per transfer: it shrinks when the id's CBOR head grows
+    (a size computed for a smaller id is too large for a bigger one). -/
+theorem C13_remain_antitone (mtu total : Nat) {id id' : Nat} (h : id ≤ id') :
+    remainSize mtu id' total ≤ remainSize mtu id total := by
+  rw [remainSize_eq, remainSize_eq]
+  unfold overhead
+  have := headLen_mono h
+  omega
+
+example : remainSize 400 24 1000 < remainSize 400 23 1000 := by decide
+
 example : 0 < remainSize 30 5 300 := by decide
 example : (0 : Int) < remainSize 1280 (2 ^ 32) 70000 := by decide
 
@@ -303,6 +325,24 @@ theorem C13_per_message (addr : String) (port : Nat) (pad : Bytes)
       omega
   simp only [List.length_append]; omega
 
+/-- Octets of value zero at the end of a datagram are data when they belong to the last message:
+    padding is recognised per message by its first octet, it is never stripped from the end. A
+    segment whose data ends in zeros, sent unpadded, is handled with all of its data. -/
+theorem C13_trailing_zero_kept (addr : String) (port : Nat) (s : Rx) (id total off : Nat)
+    (chunk : Bytes) (zeros : Nat)
+    (h1 : id < 2 ^ 64) (h2 : total < 2 ^ 64) (h3 : off < 2 ^ 64)
+    (h4 : (chunk ++ List.replicate zeros 0).length < 2 ^ 64) :
+    recvDatagram false s addr port (encTransfer id total off (chunk ++ List.replicate zeros 0)) =
+      runT s addr port [(id, total, off, chunk ++ List.replicate zeros 0)] := by
+  have := C13_per_message addr port [] (Or.inl rfl)
+    [(id, total, off, chunk ++ List.replicate zeros 0)] s
+    (by intro m hm; simp only [List.mem_singleton] at hm; subst hm; exact ⟨h1, h2, h3, h4⟩)
+  simpa using this
+
+/-- an all-zero bundle of 5 octets in two unpadded segments (both datagrams end in 0x00) -/
+example : ((recvDatagram false (recvDatagram false Rx.init "a" 1 (encTransfer 0 5 3 [0, 0])).1 "a" 1
+    (encTransfer 0 5 0 [0, 0, 0])).1.queue.map fun q => q.2.data) = [[0, 0, 0, 0, 0]] := by decide
+
 /-- Per-message handling of a whole bundle inside a datagram: a message that starts with a major
     type 4 octet and is a self-delimiting CBOR item (`skipItem` stops right after it) is queued as
     one bundle, and processing goes on with what follows. (Delimiting arbitrary CBOR is `skipItem`;
@@ -401,6 +441,41 @@ theorem C13_rx_ids_distinct (ops : List Op) :
   intro i hi
   obtain ⟨e, he, rfl⟩ := List.mem_map.mp hi
   exact h1 e he
+
+/-- The receive id of a reassembled bundle is the local counter, whatever transfer id the peer
+    chose: a TRANSFER message either queues nothing, or exactly one entry under `_rx_id`, and the
+    counter moves on by one. -/
+theorem C13_rx_id_is_local_counter (s : Rx) (k : Key) (total off : Nat) (chunk : Bytes) :
+    ((step s (.xfer k total off chunk)).queue = s.queue ∧
+      (step s (.xfer k total off chunk)).rxId = s.rxId) ∨
+    ∃ q, (step s (.xfer k total off chunk)).queue = s.queue ++ [(s.rxId, q)] ∧
+      q.xid = some k.xid ∧ (step s (.xfer k total off chunk)).rxId = s.rxId + 1 := by
+  have key : ∀ x : Xfer, ((applyFrag s k x off chunk).queue = s.queue ∧
+        (applyFrag s k x off chunk).rxId = s.rxId) ∨
+      ∃ q, (applyFrag s k x off chunk).queue = s.queue ++ [(s.rxId, q)] ∧
+        q.xid = some k.xid ∧ (applyFrag s k x off chunk).rxId = s.rxId + 1 := by
+    intro x
+    unfold applyFrag
+    split
+    · exact Or.inr ⟨_, rfl, rfl, rfl⟩
+    · exact Or.inl ⟨rfl, rfl⟩
+  have hcase : step s (.xfer k total off chunk) = s ∨
+      ∃ x, step s (.xfer k total off chunk) = applyFrag s k x off chunk := by
+    rw [step_xfer]
+    cases getX k s.frags with
+    | none => exact Or.inr ⟨_, rfl⟩
+    | some x =>
+      by_cases ht : total ≠ x.total
+      · left; show (if total ≠ x.total then s else _) = s; rw [if_pos ht]
+      · right; exact ⟨x, by show (if total ≠ x.total then s else _) = _; rw [if_neg ht]⟩
+  rcases hcase with h | ⟨x, h⟩
+  · rw [h]; exact Or.inl ⟨rfl, rfl⟩
+  · rw [h]; exact key x
+
+/-- a peer that numbers its transfer 0 while receive id 0 is already queued: the reassembled
+    bundle is queued under 1 -/
+example : queueIds (run Rx.init [.bundle "a" 1 [0x80], .xfer ⟨"a", 1, 0⟩ 2 0 [0x81, 0]]) = [0, 1] := by
+  decide
 
 /-- Hence `_rx_queue[id] = item` never replaces an entry: in every reachable state the dict
     assignment under the next id is an append (what `addRx` does). -/
